@@ -141,7 +141,7 @@ def _repo_frames(text, limit):
     names = []
     for line in text.splitlines():
         m = re.match(r"\s*#\d+ (?:0x[0-9a-f]+ in )?(.+?) (/[^\s:]+)(?::\d+)*(?: \(.*)?$", line)
-        if not m or not m.group(2).startswith("/repo/"):
+        if not m or not m.group(2).startswith(vlib.REPO.rstrip("/") + "/"):
             continue
         tag = "%s[%s]" % (_short(m.group(1)), os.path.basename(m.group(2)))
         if tag not in names:
